@@ -1,6 +1,16 @@
 """Contracts for workflows.runtime.control_loop (the pure tick reducer)."""
 from pyvc.dsl import *  # noqa
 
+try:  # native side only (the verifier reads this file as text and ignores this block)
+    from workflows.events import *  # noqa
+    from workflows.events import StepState, StepStateChanged  # noqa
+    from workflows.runtime.types.commands import *  # noqa
+    from workflows.runtime.types.internal_state import *  # noqa
+    from workflows.runtime.types.results import *  # noqa
+    from workflows.runtime.types.ticks import *  # noqa
+except ImportError:  # pragma: no cover
+    pass
+
 MODULE = "workflows.runtime.control_loop"
 
 FIELD_TYPES = {
@@ -80,8 +90,7 @@ class AddOrEnqueue:
         m = len(old.state.in_progress)
         q = len(old.state.queue)
         has_space = m < old.state.config.num_workers
-        return ite(
-            has_space,
+        return (
             # started on the smallest free slot; queue untouched
             len(state.in_progress) == m + 1
             and forall(m, lambda i: same(state.in_progress[i], old.state.in_progress[i]))
@@ -99,7 +108,8 @@ class AddOrEnqueue:
             and isinstance(result[1].event, StepStateChanged)
             and result[1].event.step_state == StepState.RUNNING
             and result[1].event.name == step_name
-            and result[1].event.worker_id == str_of_int(state.in_progress[m].worker_id),
+            and result[1].event.worker_id == str_of_int(state.in_progress[m].worker_id)
+        ) if has_space else (
             # queued behind everything already waiting; running work untouched
             same(state.in_progress, old.state.in_progress)
             and len(state.queue) == q + 1
@@ -109,28 +119,26 @@ class AddOrEnqueue:
             and isinstance(result[0], CommandPublishEvent)
             and isinstance(result[0].event, StepStateChanged)
             and result[0].event.step_state == StepState.PREPARING
-            and result[0].event.name == step_name,
+            and result[0].event.name == step_name
         )
 
     def ensures_retry_fields(old, event, step_name, state, now_seconds, result):
         # C05: the attempt counters travel with the event into the slot
         m = len(old.state.in_progress)
-        return implies(
-            m < old.state.config.num_workers,
+        return (not (m < old.state.config.num_workers)) or (
             state.in_progress[m].attempts == ite(event.attempts is None, 0, opt_val(event.attempts))
             and same(state.in_progress[m].last_exception, event.last_exception)
             and same(state.in_progress[m].last_failed_at, event.last_failed_at)
             and same(state.in_progress[m].recovery_counts, event.recovery_counts)
             and state.in_progress[m].first_attempt_at
-            == ite(event.first_attempt_at is None, now_seconds, opt_val(event.first_attempt_at)),
+            == ite(event.first_attempt_at is None, now_seconds, opt_val(event.first_attempt_at))
         )
 
     def ensures_snapshot(old, event, step_name, state, now_seconds, result):
         # C09: the invocation's snapshot equals the live collected state at start time
         m = len(old.state.in_progress)
-        return implies(
-            m < old.state.config.num_workers,
+        return (not (m < old.state.config.num_workers)) or (
             same(state.in_progress[m].shared_state.collected_events, old.state.collected_events)
             and same(state.in_progress[m].shared_state.collected_waiters, old.state.collected_waiters)
-            and state.in_progress[m].shared_state.step_name == step_name,
+            and state.in_progress[m].shared_state.step_name == step_name
         )
